@@ -6,9 +6,9 @@ package anndbverif
 
 import (
 	"context"
-	"os"
 	"encoding/json"
 	"fmt"
+	"os"
 	"sort"
 	"strings"
 	"time"
@@ -75,29 +75,29 @@ type histOp struct {
 }
 
 type dsInfo struct {
-	id    uuid.UUID
-	meta  *pb.Dataset
-	dim   int
-	space int
-	p, r  int
-	ackedCreate bool
-	ackedDelete bool
+	id            uuid.UUID
+	meta          *pb.Dataset
+	dim           int
+	space         int
+	p, r          int
+	ackedCreate   bool
+	ackedDelete   bool
 	unknownCreate bool
 	unknownDelete bool
 }
 
 type W3Run struct {
-	s       *Sim
-	c       *W3Case
-	out     *Outcome
-	hist    []*histOp
-	ds      map[int]*dsInfo
-	prop    string
-	mon     *raftMonitor
-	baseHit map[int]int
-	settled bool
-	lockHeld map[int]bool // nodes whose catalogue locks were held at a quiescent instant
-	firstPermanentCrash uint64 // event stamp of the first crash in this run (0: none)
+	s                   *Sim
+	c                   *W3Case
+	out                 *Outcome
+	hist                []*histOp
+	ds                  map[int]*dsInfo
+	prop                string
+	mon                 *raftMonitor
+	baseHit             map[int]int
+	settled             bool
+	lockHeld            map[int]bool // nodes whose catalogue locks were held at a quiescent instant
+	firstPermanentCrash uint64       // event stamp of the first crash in this run (0: none)
 }
 
 func vecOf(id, ver, dim int) []float32 {
@@ -140,17 +140,17 @@ func errKind(err error) string {
 
 type durableSample struct {
 	term, vote, commit, first, last uint64
-	terms                          map[uint64]uint64 // index -> term for indices <= commit that were seen
+	terms                           map[uint64]uint64 // index -> term for indices <= commit that were seen
 }
 
 type raftMonitor struct {
 	s         *Sim
 	prop      string
-	applied   map[string]uint64            // group/index -> digest
-	appliedBy map[string]string            // group/index -> who first
-	lastIdx   map[string]uint64            // node/inc/group -> last applied index
-	leaders   map[string]uint64            // group/term -> leader node
-	durable   map[string]*durableSample    // node/group -> last sample
+	applied   map[string]uint64         // group/index -> digest
+	appliedBy map[string]string         // group/index -> who first
+	lastIdx   map[string]uint64         // node/inc/group -> last applied index
+	leaders   map[string]uint64         // group/term -> leader node
+	durable   map[string]*durableSample // node/group -> last sample
 	viol      func(sig, format string, a ...interface{})
 	injected  map[int]bool // nodes with injected disk errors (fatal is a legal reaction)
 }
